@@ -15,7 +15,7 @@ RULE = ("features with n = 1..12 rows of dimension 2-D / 3-D / 4-D whose first e
         "(sampled in quick) left of, right of, straddling either end of, or covering the data, timeline focuses of up "
         "to 3 segments, each mode, fixed in {None, 0, duration, duration+step, duration+3*step+1} (long enough for >= 0 "
         "frames); return_data=False on segment focuses; iteration, extent, NumPy ufuncs and align(self) asserted in "
-        "the driver; regime K0; non-trivial = some requested frame lies outside the data")
+        "the driver; decimal windows (10 ms / 25 ms, 0.1, 0.3, 1/3 s ...) with 1..60 rows (sampled in quick): align(self) identity, align to a feature of another length, iteration count; regime K0; non-trivial = some requested frame lies outside the data")
 
 
 def generate(rng, tier):
